@@ -14,13 +14,19 @@
    as many as the counter starts with — is parked, in order, under a fresh ticket with the data entity as its parked
    item, before the trigger command returns; every parked command is set up exactly once over the run (by its run or by
    the abort path, each followed by its cleanup).
-   NOT proved: the global count as one equation — counter = parked-but-not-yet-cleaned-up readers at every point, hence
-   zero exactly after the last scheduled reader — and "dropped exactly once" over the whole log.  Those
+   Proved for whole executions (DataSpec, induction over the interpreter, no assumption on the program): the leak-freedom
+   half of the counter equation — at every instruction boundary the count a live data entity carries never exceeds the
+   readers still to come (entries parked for it in the tracker + the open window on it + the reaction commands queued in
+   the instruction + what the calling context still owes); hence, the trackers being empty at quiescence, when a run ends
+   no event data entity is left at all: every payload has been released and no bookkeeping entity outlives the tree.
+   NOT proved: the converse inequality (the count is never BELOW the readers still to come, i.e. no payload is released
+   while a scheduled reader has yet to run) and "dropped exactly once" as a count over the log.  Those
    rest on the correspondence (every drop is a compared log line, data=0 in every compared snapshot) and the m_payloads
-   monitor.  Statements only; proofs in proofs/PayloadSpec.v. *)
+   monitor.  Statements only; proofs in proofs/{PayloadSpec,PrepSpec,DataSpec}.v. *)
 From Cobweb Require Import Machine.
 Require Import Coq.Sorting.Permutation.
-From CobwebProofs Require Import RunnerInv OnceInv TicketInv PayloadSpec PrepSpec TopLevel.
+From Coq Require Import ZArith.
+From CobwebProofs Require Import RunnerInv OnceInv TicketInv PayloadSpec PrepSpec DataSpec TopLevel.
 
 Theorem unheard_broadcast_dropped_at_once_partial : forall (P : program) w ty p, tbl_get ty (bc_tbl w) = [] ->
   snd (apply_prim P (CBroadcast ty p) w) = [] /\ dataents (fst (apply_prim P (CBroadcast ty p) w)) = dataents w
@@ -115,6 +121,22 @@ Proof. exact (psorted_init ex_prog). Qed.
 Example ex_parked : exists w', run ex_prog 300 = Ok w' /\ map snd (g_prep w') = [[PiEv 1000000]; [PiEv 1000000]].
 Proof. eexists. split; [vm_compute; reflexivity|]. vm_compute. reflexivity. Qed.
 
+(* the count never exceeds the readers still to come (kd = true: broadcast / entity-event data, tracker tr_ev; kd = false:
+   system-event data, tracker tr_se); Y is what the calling context still owes for d *)
+Theorem count_never_exceeds_the_readers_to_come : forall (P : program) (d : ent) (kd : bool) (fuel : nat) (i : instr) (Y : Z) (w w' : world),
+  DataAlive w -> PreC d kd i Y w -> exec P fuel i w = Ok w' -> Q d kd Y w'.
+Proof. exact exec_count_bound. Qed.
+Theorem recorded_data_entities_are_alive_everywhere : forall (P : program) (fuel : nat) (i : instr) (w w' : world),
+  DataAlive w -> exec P fuel i w = Ok w' -> DataAlive w'.
+Proof. intros P. exact (Closed.exec_closed P DataAlive (DA_closed P)). Qed.
+(* whole runs: nothing is left — every event data entity has been released when the run ends *)
+Theorem no_event_data_entity_outlives_the_run : forall (P : program) (fuel : nat) (w' : world), run P fuel = Ok w' ->
+  forall d, alookup d (dataents w') = None.
+Proof. exact no_data_entity_left. Qed.
+
+Example ex_count_hyps : DataAlive (install_static ex_prog init_world) /\ Q 1000000 true 0 (install_static ex_prog init_world).
+Proof. split; [apply DA_init|apply Q_init]. Qed.
+
 Print Assumptions every_scheduled_reader_is_set_up_exactly_once.
 Print Assumptions unheard_broadcast_dropped_at_once_partial.
 Print Assumptions unheard_entity_event_dropped_at_once_partial.
@@ -129,3 +151,6 @@ Print Assumptions skipped_reader_still_cleans_up_partial.
 Print Assumptions no_reader_is_lost_partial.
 Print Assumptions every_counted_reader_of_a_broadcast_is_parked.
 Print Assumptions every_counted_reader_of_an_entity_event_is_parked.
+Print Assumptions count_never_exceeds_the_readers_to_come.
+Print Assumptions recorded_data_entities_are_alive_everywhere.
+Print Assumptions no_event_data_entity_outlives_the_run.
